@@ -16,6 +16,10 @@ from .trace import *  # noqa: F401,F403
 from . import C01, C02, boundary
 
 OBS = "pyxel/observation/observation.py"
+BOUNDED = {
+    r'^observation\.sweep': 'sweeps of three runs, failure at run 0, 1 or 2',
+    r'^observation\.single_pipeline': 'runs with 0..2 swept parameters',
+}      # unit-name / obligation-name patterns -> the family these obligations are proved for
 TRUSTED = ["dask re-raises task exceptions at compute time; pygmo's wait_check re-raises island errors (external libraries)",
            "the user's model function may raise any exception object", "logging calls are effect-free (dropped)"]
 
